@@ -88,6 +88,8 @@ def catalogue() -> list[tuple[str, Any]]:
             X(), 3, [0, 2]),
         'EmbeddedGate(RZ in ququart levels 1,3)': lambda: G.EmbeddedGate(
             RZ(), 4, [1, 3]),
+        'EmbeddedGate(U3 in qutrit levels 2,0)': lambda: G.EmbeddedGate(
+            U3(), 3, [2, 0]),
     }
     for k, v in extra.items():
         out.append((k, v))
@@ -268,14 +270,48 @@ def algebra_contract() -> list[tuple[str, list[str]]]:
     chk('ControlledGate(X,2) is Toffoli',
         G.ControlledGate(G.XGate(), 2).get_unitary(),
         G.ToffoliGate().get_unitary())
-    # embedding: acts as the gate on the chosen levels, identity elsewhere
-    E = np.eye(3, dtype=complex)
+    # embedding: acts as the gate on the chosen levels (in the order the
+    # level map gives them), identity elsewhere
+    def embedded(small: Any, srad: list[int], brad: list[int],
+                 maps: list[list[int]]) -> Any:
+        D = int(np.prod(brad))
+        E = np.eye(D, dtype=complex)
+
+        def f(idx: int) -> int:
+            digs = []
+            for r in reversed(srad):
+                digs.append(idx % r)
+                idx //= r
+            digs.reverse()
+            out_i = 0
+            for dg, mp_, r in zip(digs, maps, brad):
+                out_i = out_i * r + mp_[dg]
+            return out_i
+        d = small.shape[0]
+        for i in range(d):
+            E[f(i), f(i)] = 0
+        for i in range(d):
+            for j in range(d):
+                E[f(i), f(j)] = small[i, j]
+        return E
     X = np.asarray(G.XGate().get_unitary())
-    for a, i in enumerate((0, 2)):
-        for b, j in enumerate((0, 2)):
-            E[i, j] = X[a, b]
-    chk('EmbeddedGate(X, qutrit, levels 0 and 2)',
-        G.EmbeddedGate(G.XGate(), 3, [0, 2]).get_unitary(), E)
+    T = np.asarray(G.TGate().get_unitary())
+    U3m = np.asarray(G.U3Gate().get_unitary(p3))
+    CRZ = np.asarray(G.CRZGate().get_unitary([0.9]))
+    for nm, gate, par, small, srad, brad, maps in (
+        ('X, qutrit, levels [0,2]', G.XGate(), [], X, [2], [3], [[0, 2]]),
+        ('T, qutrit, levels [2,0]', G.TGate(), [], T, [2], [3], [[2, 0]]),
+        ('T, qutrit, levels [1,0]', G.TGate(), [], T, [2], [3], [[1, 0]]),
+        ('U3, ququart, levels [3,1]', G.U3Gate(), p3, U3m, [2], [4],
+         [[3, 1]]),
+        ('CRZ, qutrits, levels [[0,2],[2,1]]', G.CRZGate(), [0.9], CRZ,
+         [2, 2], [3, 3], [[0, 2], [2, 1]]),
+    ):
+        lm = maps[0] if len(maps) == 1 else maps
+        chk('EmbeddedGate(%s)' % nm,
+            G.EmbeddedGate(gate, brad if len(brad) > 1 else brad[0],
+                           lm).get_unitary(par),
+            embedded(small, srad, brad, maps))
     return out
 
 
